@@ -8,6 +8,7 @@ import (
 	"time"
 
 	"verif/gosym"
+	"verif/regosym"
 	"verif/smt"
 )
 
@@ -31,6 +32,12 @@ func main() {
 		os.Exit(cmdReplay(os.Args[2:]))
 	case "externs":
 		cmdExterns()
+	case "regocheck":
+		cmdRegoCheck(os.Args[2:])
+	case "regopaths":
+		cmdRegoPaths(os.Args[2:])
+	case "regodump":
+		cmdRegoDump(os.Args[2:])
 	default:
 		usage()
 	}
@@ -82,4 +89,28 @@ func cmdRun(args []string) {
 	res.Functions = nil
 	b, _ := json.MarshalIndent(res, "", " ")
 	fmt.Println(string(b))
+}
+
+func cmdRegoDump(args []string) {
+	work := verifDir() + "/.work/dump"
+	os.MkdirAll(work, 0o755)
+	defer os.RemoveAll(work)
+	d, err := regosym.BuildDriver(repoDir, verifDir(), work)
+	if err != nil {
+		fmt.Fprintln(os.Stderr, err)
+		os.Exit(2)
+	}
+	b, _ := os.ReadFile(args[0])
+	outs, err := d.Generate([]string{string(b)})
+	if err != nil || outs[0].Error != "" {
+		fmt.Fprintln(os.Stderr, err, outs)
+		os.Exit(2)
+	}
+	if len(args) > 1 {
+		fmt.Println(outs[0].Code)
+		return
+	}
+	if err := regosym.Dump(outs[0].Code); err != nil {
+		fmt.Fprintln(os.Stderr, err)
+	}
 }
